@@ -115,7 +115,9 @@ Definition E_idx_num : N := 9.         (* index access of array must be type of 
 Definition E_idx_str : N := 10.        (* property access of object must be type of string *)
 Definition E_idx_operand : N := 11.    (* index access operand must be type of object or array *)
 
-Definition is_obj (t : ty) : bool := match t with TObj _ _ => true | _ => false end.
+(* checkArrayDeref on a strict object: a member that is an object, or of unknown
+   type (fix 8052416: `any` may hold an object), allows the filter *)
+Definition is_obj (t : ty) : bool := match t with TObj _ _ => true | TAny => true | _ => false end.
 
 (* checkObjectDeref, after the receiver was checked: reads only *)
 Definition prop_rule (env : tenv) (v : val) (n : string) : val * list N :=
